@@ -158,6 +158,8 @@ def _direct_of(c):
     extra = []
     if c['routine'] == 'add':
         extra = [c['new']] + list(c.get('more', []))
+    elif c['routine'] == 'hist':
+        extra = [st[1] for st in c['steps'] if st[0] == 'add']
     cols = c['cols'] if c['cols'] == 'self' else tuple(tuple(col) for col in c['cols'])
     return _direct(tuple(tuple(e) for e in c['exts']), cols, tuple(tuple(e) for e in extra), c['nobj'])
 
@@ -237,6 +239,29 @@ class PipelineError(Exception):
     pass
 
 
+def alias_report(dicts, inputs=()):
+    """structural check of returned relation dictionaries (H2/H5, aliasing BETWEEN entries of one container): no two
+    entries (of one dictionary, or of the children and the parents dictionary together) may be the SAME mutable set
+    object, and with inplace=False none may be an object of the caller's dictionaries (`is`, all objects alive)"""
+    seen, out = {}, []
+    for name, d in dicts:
+        if not isinstance(d, dict):
+            continue
+        for k, v in d.items():
+            if not isinstance(v, (set, list)):
+                continue
+            if id(v) in seen:
+                out.append(f'{name}[{k}] is {seen[id(v)]}')
+            else:
+                seen[id(v)] = f'{name}[{k}]'
+    for name, d in inputs:
+        if isinstance(d, dict):
+            for k, v in d.items():
+                if isinstance(v, (set, list)) and id(v) in seen:
+                    out.append(f'returned {seen[id(v)]} is the caller\'s {name}[{k}]')
+    return out[:6]
+
+
 def _ordered(d, how, kseed, second=False):
     keys = sorted(d)
     if how in ('asc-desc', 'desc-asc'):
@@ -302,6 +327,49 @@ def _on_alarm(signum, frame):
     raise ImplTimeout()
 
 
+def impl_hist(c, cs, lca):
+    """chained history: the OUTPUT (list, both dictionaries, top and bottom index) of one add_concept / remove_concept
+    call is the input of the next one"""
+    sub, sup = py_covers(c['exts'])
+    subd = {i: set(x) for i, x in enumerate(sub)}
+    supd = {i: set(x) for i, x in enumerate(sup)}
+    t, b = top_bottom(c['exts']) if c['passtb'] else (None, None)
+    cur = list(cs)
+    steps = []
+    for (kind, arg), inp in zip(c['steps'], c['inplace']):
+        prev = [('children', subd), ('parents', supd)]
+        try:
+            if kind == 'add':
+                out = lca.add_concept(candidate_concept(c, arg), cur, subd, supd, t, b, inplace=bool(inp))
+            else:
+                out = lca.remove_concept(arg, cur, subd, supd, t, b, inplace=bool(inp))
+            cur, subd, supd, t, b = out
+            m = len(cur)
+            res = {'ok': {'exts': [sorted(int(g) for g in x.extent_i) for x in cur], 'sub': canon_dict(subd, m),
+                          'sup': canon_dict(supd, m), 'top': None if t is None else int(t),
+                          'bot': None if b is None else int(b)}}
+            al = alias_report([('children', subd), ('parents', supd)], () if inp else prev)
+            if al:
+                res['alias'] = al
+        except ImplTimeout:
+            raise
+        except Exception as e:
+            res = {'err': exc_name(e)}
+        steps.append(res)
+        if 'err' in res:
+            break
+    return {'steps': steps}
+
+
+def hist_lists(c):
+    """the concept lists (as extents) after each step of a chained history"""
+    cur, out = list(c['exts']), []
+    for kind, arg in c['steps']:
+        cur = cur + [arg] if kind == 'add' else cur[:arg] + cur[arg + 1:]
+        out.append(cur)
+    return out
+
+
 def impl(c):
     import fcapy.algorithms.lattice_construction as lca
     from fcapy.lattice import ConceptLattice
@@ -325,11 +393,14 @@ def impl(c):
             sys.setswitchinterval(c['swi'])
         if r in ('cc', 'st', 'fst', 'tree', 'oe'):
             arg = tuple(cs) if c.get('ctype') == 'tuple' else cs
+            raw = []
             if r == 'cc':
-                res = canon_dict(lca.complete_comparison(arg, is_concepts_sorted=c['sorted'], n_jobs=c['njobs']), n)
+                raw = [('children', lca.complete_comparison(arg, is_concepts_sorted=c['sorted'], n_jobs=c['njobs']))]
+                res = canon_dict(raw[0][1], n)
             elif r == 'st':
-                res = canon_dict(lca.construct_lattice_by_spanning_tree(arg, is_concepts_sorted=c['sorted'],
-                                                                        n_jobs=c['njobs']), n)
+                raw = [('children', lca.construct_lattice_by_spanning_tree(arg, is_concepts_sorted=c['sorted'],
+                                                                           n_jobs=c['njobs']))]
+                res = canon_dict(raw[0][1], n)
             elif r == 'fst':
                 # the three stages called one by one, as `construct_lattice_by_spanning_tree` chains them
                 _, sup = lca.construct_spanning_tree(arg, is_concepts_sorted=c['sorted'])
@@ -339,17 +410,26 @@ def impl(c):
                 else:
                     d = lca.construct_lattice_from_spanning_tree_parallel(arg, chains, is_concepts_sorted=c['sorted'],
                                                                           n_jobs=c['njobs'])
+                raw = [('children', d)]
                 res = canon_dict(d, n)
             elif r == 'tree':
                 sub, sup = lca.construct_spanning_tree(arg, is_concepts_sorted=c['sorted'])
+                raw = [('tree children', sub), ('tree parents', sup)]
                 chains = ConceptLattice._get_chains(arg, sup, is_concepts_sorted=c['sorted'])
                 res = {'sub': canon_dict(sub, n), 'sup': canon_dict(sup, n),
                        'chains': [[int(x) for x in ch] for ch in chains]}
             else:
-                res = canon_dict(lca.order_extents_comparison(arg), n)
+                raw = [('children', lca.order_extents_comparison(arg))]
+                res = canon_dict(raw[0][1], n)
             # the routines only read the list they are given
             intact = len(arg) == n and all(a is b for a, b in zip(arg, concept_list(c)))
-            return {'ok': res, 'input_intact': intact}
+            out = {'ok': res, 'input_intact': intact}
+            al = alias_report(raw)
+            if al:
+                out['alias'] = al
+            return out
+        if r == 'hist':
+            return impl_hist(c, cs, lca)
         # add / remove: a history on ONE base (list + relation): the first candidate, and with inplace=False the
         # further candidates `more` are tried against the very same objects, which must stay intact.
         try:
@@ -370,9 +450,13 @@ def impl(c):
                     out = lca.remove_concept(cand, cs, subd, supd, t, b, inplace=c['inplace'])
                     m = n - 1
                 cs2, sub2, sup2, t2, b2 = out
+                al = alias_report([('children', sub2), ('parents', sup2)],
+                                  () if c['inplace'] else [('children', subd), ('parents', supd)])
                 res = {'ok': {'exts': [sorted(int(g) for g in x.extent_i) for x in cs2],
                               'sub': canon_dict(sub2, m), 'sup': canon_dict(sup2, m),
                               'top': None if t2 is None else int(t2), 'bot': None if b2 is None else int(b2)}}
+                if al:
+                    res['alias'] = al
             except ImplTimeout:
                 raise
             except Exception as e:
@@ -430,6 +514,8 @@ def requests_big(c, io):
 
 
 def requests(c, io):
+    if c['routine'] == 'hist':
+        return [dict(op='C12.covers_fast', cs=x) for x in [c['exts']] + hist_lists(c)]
     if c.get('big'):
         return requests_big(c, io)
     r = c['routine']
@@ -454,8 +540,47 @@ def requests(c, io):
     return [dict(op='C12.rem', ci=cand, **base) for cand in cands]
 
 
+def alias_found(io):
+    if not isinstance(io, dict):
+        return []
+    out = list(io.get('alias', []))
+    for x in list(io.get('calls', [])) + list(io.get('steps', [])):
+        if isinstance(x, dict):
+            out += x.get('alias', [])
+    return out
+
+
+def judge_hist(c, io, rep):
+    if 'not_a_concept' in io:
+        return dict(ok=False, kind='harness', detail='generated case is not a list of concepts: ' + io['not_a_concept'])
+    if 'steps' not in io:
+        return dict(ok=False, kind='property', detail=f'chained history raised {str(io)[:300]}')
+    base = rep[0]['spec']
+    sub0, sup0 = py_covers(c['exts'])
+    if [sorted(x) for x in sub0] != base['sub'] or [sorted(x) for x in sup0] != base['sup']:
+        return dict(ok=False, kind='harness', detail='relation prepared for the first step is not the cover relation of the base')
+    lists = hist_lists(c)
+    for k, (st, inp, lst, q) in enumerate(zip(c['steps'], c['inplace'], lists, rep[1:])):
+        where = (f'history {c["steps"]} (inplace={c["inplace"]}) on {c["exts"]}: step {k + 1} = {st[0]}({st[1]}) applied to the '
+                 f'OUTPUT of step {k}' if k else f'history {c["steps"]} (inplace={c["inplace"]}) on {c["exts"]}: step 1 = '
+                 f'{st[0]}({st[1]})')
+        if k >= len(io['steps']):
+            return dict(ok=False, kind='harness', detail='history length mismatch')
+        res = io['steps'][k]
+        spec = q['spec']
+        want = dict(exts=[sorted(e) for e in lst], sub=spec['sub'], sup=spec['sup'], top=spec['top'], bot=spec['bot'])
+        if res.get('ok') != want:
+            shown = {kk: vv for kk, vv in res.items() if kk in ('ok', 'err')}
+            return dict(ok=False, kind='property', detail=f'{where} returned {shown}, expected {want}')
+    return dict(ok=True)
+
+
 def judge(c, io, rep):
     v = _judge(c, io, rep)
+    if v.get('ok') and alias_found(io) and c.get('stream') != 'malformed':
+        v = dict(ok=False, kind='correspondence',
+                 detail=f'{c["routine"]}: entries of the returned relation share one mutable object: {alias_found(io)[:4]} '
+                        '(values are right; a later in-place update of one entry would change the other)')
     log = os.environ.get('C12_DEBUG_LOG')
     if log and not v.get('ok'):
         import json
@@ -484,7 +609,7 @@ def judge_big(c, io, rep):
     if 'input_intact' in io:
         if not io['input_intact']:
             return dict(ok=False, kind='property', detail=f'{flags} modified the concept list it was given')
-        io = {k: v for k, v in io.items() if k != 'input_intact'}
+        io = {k: v for k, v in io.items() if k not in ('input_intact', 'alias')}
     if r in ('cc', 'st', 'fst', 'oe'):
         want = rep[0]['spec']['sub']
         if io.get('ok') != want:
@@ -548,6 +673,8 @@ def judge_big(c, io, rep):
 
 
 def _judge(c, io, rep):
+    if c['routine'] == 'hist':
+        return judge_hist(c, io, rep)
     if c.get('big'):
         return judge_big(c, io, rep)
     if isinstance(io, dict) and 'not_a_concept' in io:
@@ -559,7 +686,7 @@ def _judge(c, io, rep):
         if not io['input_intact']:
             return dict(ok=False, kind='property',
                         detail=f'{c["routine"]} modified the concept list it was given (input is only to be read)')
-        io = {k: v for k, v in io.items() if k != 'input_intact'}
+        io = {k: v for k, v in io.items() if k not in ('input_intact', 'alias')}
     r = c['routine']
     q = rep[0]
     mal = c['stream'] == 'malformed'
@@ -1157,6 +1284,108 @@ def sizegate_big(rng):
     yield from direct_addrem(S, 'chain1001', 1000, exts, rng, n_each=1)
 
 
+def fam_wrap(d):
+    """counter wrap-around: 'big' = 4 common objects + d objects of its own, 'small' = the 4 common + 30 of its own, so that
+    |big \\ small| = d EXACTLY (255 / 256 / 257 / 512) while |small \\ big| = 30; big2 / small2 share one / two objects;
+    a count of common or differing objects kept in 8 bits declares big <= small for d = 256, 512"""
+    C = [0, 1, 2, 3]
+    Bo = list(range(4, 4 + d))
+    So = list(range(4 + d, 4 + d + 30))
+    n = 4 + d + 30 + 1
+    return n, [list(range(n)), C + Bo, [0] + Bo, C + So, [0, 1] + So[:20], C, [0], []]
+
+
+def sizegate_wrap(rng, diffs):
+    for di, d in enumerate(diffs):
+        n, exts = fam_wrap(d)
+        assert nonclosed_witness(exts) is not None
+        for hi, how in enumerate(('shuf', 'asc')):
+            e2 = scramble(exts, rng, how)
+            fam = f'wrap{d}:{how}'
+            orders = ('sorted', 'shuffled', 'ends') if how == 'shuf' else ('shuffled',)
+            for o in orders:
+                lst = listing(e2, rng, o)
+                for srt in ((False, True) if o == 'sorted' else (False,)):
+                    for nj in (1, 2, 3):
+                        yield direct_case('sizegate-wrap', fam + ':' + o, n, lst, 'cc', sorted=srt, njobs=nj)
+                    yield direct_case('sizegate-wrap', fam + ':' + o, n, lst, 'st', sorted=srt, njobs=1)
+                    if how == 'shuf':
+                        yield direct_case('sizegate-wrap', fam + ':' + o, n, lst, 'fst', sorted=srt, njobs=2 + di % 2)
+                        yield direct_case('sizegate-wrap', fam + ':' + o, n, lst, 'tree', sorted=srt)
+            if how == 'shuf':
+                yield from direct_addrem('sizegate-wrap', fam, n, e2, rng, n_each=2)
+                full = scramble(close_family(exts), rng, 'shuf')
+                yield direct_case('sizegate-wrap', fam + ':closed', n, listing(full, rng, 'shuffled'), 'oe')
+
+
+def hist_steps(all_exts, cur):
+    inl = {tuple(sorted(e)) for e in cur}
+    out = [['add', e] for e in all_exts if tuple(sorted(e)) not in inl and has_top_bottom(cur + [e])]
+    if len(cur) >= 3:
+        out += [['rem', i] for i in range(len(cur)) if has_top_bottom(cur[:i] + cur[i + 1:])]
+    return out
+
+
+def hist_apply(cur, st):
+    return cur + [st[1]] if st[0] == 'add' else cur[:st[1]] + cur[st[1] + 1:]
+
+
+def hist_cases(all_exts, lst, stream, rng, mk):
+    """chained histories (H2/H5): the output of one helper call is the input of the next.  Bases: the size-sorted listing
+    `lst`, and `lst` with each of its concepts moved to the END (then the first step removes that last-indexed concept: the
+    index shift of remove_concept has nothing to shift); every admissible first step x every admissible second step, a
+    random third step on every third history; inplace flags per step rotate through all combinations"""
+    k = 0
+    bases = [(lst, False)] + [([e for e in lst if e is not x] + [x], True) for x in lst]
+    for base, last_only in bases:
+        for s1 in hist_steps(all_exts, base):
+            if last_only and s1 != ['rem', len(base) - 1]:
+                continue
+            cur1 = hist_apply(base, s1)
+            for s2 in hist_steps(all_exts, cur1):
+                k += 1
+                steps = [s1, s2]
+                if k % 3 == 0:
+                    more = hist_steps(all_exts, hist_apply(cur1, s2))
+                    if more:
+                        steps.append(rng.choice(more))
+                flags = [[(k >> j) & 1 for j in range(len(steps))]]
+                if last_only:
+                    flags.append([1 - f for f in flags[0]])
+                for fl in flags:
+                    yield mk(exts=base, routine='hist', steps=steps, inplace=fl, passtb=bool(k % 2), stream=stream)
+
+
+def hist_exhaustive(tables, rng, inner_cap=6):
+    for rows, exts in families(tables):
+        if len(exts) < 3:
+            continue
+        top, bot, inner = exts[0], exts[-1], exts[1:-1]
+        for kk in range(min(len(inner), inner_cap) + 1):
+            for sub in itertools.combinations(inner, kk):
+                lst = [top] + list(sub) + [bot]
+                yield from hist_cases(exts, lst, 'history', rng, lambda **kw: dict(rows=rows, **kw))
+
+
+def hist_directed(rng):
+    """directed families for the chained histories: a concept that is the sole parent of k children and the sole child of
+    one / k parents (fan), listed last; the gadget"""
+    for kfan in (2, 3):
+        n = kfan + 2
+        top = list(range(n))
+        c = list(range(kfan))
+        leaves = [[i] for i in range(kfan)]
+        xs = [[i, kfan] for i in range(kfan)] + [[i, kfan + 1] for i in range(kfan)] + [c + [kfan]]
+        allx = [top, c] + leaves + xs + [[]]
+        for lst in ([top] + leaves + [[]] + [c], [top] + xs[:kfan] + [[]] + [c] + leaves[:1], [top, c] + leaves + [[]]):
+            yield from hist_cases(allx, lst, 'history-directed', rng,
+                                  lambda **kw: dict(fam=f'fan{kfan}', nobj=n, cols='self', **kw))
+    g = [[0, 1, 2, 3]] + [list(e) for e in GADGET[1:]] + [[]]
+    allg = [list(x) for r in range(4, -1, -1) for x in itertools.combinations(range(4), r)]
+    yield from itertools.islice(hist_cases(allg, g, 'history-directed', rng,
+                                           lambda **kw: dict(fam='gadget', nobj=4, cols='self', **kw)), 1500)
+
+
 def spread(main, heavy, every):
     """the heavy cases one by one between the ordinary ones (`every` apart: one per chunk of work)"""
     heavy = iter(heavy)
@@ -1223,7 +1452,10 @@ def gen(tier, seed, boost=False):
     yield from corpus_cases()
     rng_o = random.Random(seed * 104729 + 1207)
     objs = sizegate_objects(rng_o, (64, 65, 128, 129, 256, 257) + ((512, 513, 1024, 1025) if tier == 'thorough' else ()))
-    yield from spread(itertools.chain(objs, ordinary(tier, seed, boost, rng)), heavy_cases(tier, seed), 100)
+    wrap = sizegate_wrap(rng_o, (255, 256, 257, 512) + ((511, 768, 1024) if tier == 'thorough' else ()))
+    rng_h = random.Random(seed * 15485863 + 1209)
+    hist = itertools.chain(hist_directed(rng_h), hist_exhaustive(G.tables_upto(3, 3), rng_h))
+    yield from spread(itertools.chain(objs, wrap, hist, ordinary(tier, seed, boost, rng)), heavy_cases(tier, seed), 100)
 
 
 # ---------------------------------------------------------------------------------------------------
@@ -1234,13 +1466,15 @@ def nontrivial(c):
 
 def key(c):
     return [c['exts'], c['routine'], c.get('sorted'), c.get('njobs'), c.get('swi'), c.get('new'), c.get('ci'),
-            c.get('passtb'), c.get('inplace'), c.get('more'), c.get('rel'), c.get('ctype'), c.get('miner')]
+            c.get('passtb'), c.get('inplace'), c.get('more'), c.get('rel'), c.get('ctype'), c.get('miner'), c.get('steps')]
 
 
 def branch(c, io, rep):
     r = c['routine']
     out = [c['stream'], r + (':sorted' if c.get('sorted') else ''), 'err' if 'err' in io else 'ok',
            'size:%d' % min(len(c['exts']), 10)]
+    if r == 'hist':
+        out.append('hist:' + '-'.join(st[0] + ('' if f else '(copy)') for st, f in zip(c['steps'], c['inplace'])))
     if c.get('fam'):
         out.append('fam:' + c['fam'].split(':')[0].split('/')[0].rstrip('0123456789') + ':n=%d' % len(c['exts']))
         out.append('objects>=%d' % max(k for k in (0, 64, 65, 128, 129, 256, 257, 1000) if c['nobj'] >= k))
@@ -1298,6 +1532,10 @@ def shrink_big(c):
 
 
 def shrink(c):
+    if c['routine'] == 'hist':
+        for k in range(len(c['steps']) - 1, 0, -1):
+            yield dict(c, steps=c['steps'][:k], inplace=c['inplace'][:k])
+        return
     if c.get('big'):
         yield from shrink_big(c)
         return
